@@ -188,8 +188,35 @@ def case_s(draw) -> dict[str, Any]:
         if mine != "other":
             program += [["read", 0.3701] for _ in range(n)]
         reactions = []
+    slow = 0.0
+    if not reactions == [] and draw(st.integers(0, 9)) == 0:
+        # a large diagnostic message (a TransferData block) to a gateway that reads slowly, alive checks arriving meanwhile: the
+        # message and the alive-check responses are each intact on the wire
+        slow = 0.0301
+        size = draw(st.sampled_from([5000, 16384, 20000, 40000, 70000]))
+        t0 = draw(st.integers(0, 3))
+        program = [["sleep", 0.0501]] * draw(st.integers(0, 1)) + [["write", bytes([0x36, 0x01]) + bytes(range(256)) * (size // 256)]] + [["read", 1.3701]]
+        reactions = [[[draw(st.sampled_from([5, 10, 30])), {"t": "ack", "echo": draw(st.sampled_from(["full", "partial", "empty"])), "n": 3}]]]
+        unsolicited = [[t0 + 2 * i, {"t": "alive"}] for i in range(draw(st.integers(1, 8)))]
     return {"src": src, "tgt": tgt, "ver": draw(st.sampled_from([2, 3, 3, 1])), "program": program, "reactions": reactions,
-            "unsolicited": unsolicited, "splits": draw(st.lists(st.integers(0, 200), max_size=8))}
+            "unsolicited": unsolicited, "splits": draw(st.lists(st.integers(0, 200), max_size=8)), "slow_drain": slow}
+
+
+class SlowWriter(MemWriter):
+    """A gateway that takes its time to read: after a large write() the stream is above its high-water mark and drain() suspends."""
+
+    drain_delay = 0.0
+    _big = False
+
+    def write(self, data: bytes) -> None:
+        self._big = self._big or len(data) >= 4096
+        super().write(data)
+
+    async def drain(self) -> None:
+        if self._big and self.drain_delay:
+            self._big = False
+            await asyncio.sleep(self.drain_delay)
+        await super().drain()
 
 
 def run_case(case: dict[str, Any]) -> dict[str, Any]:
@@ -209,8 +236,24 @@ def run_case(case: dict[str, Any]) -> dict[str, Any]:
         alive_replies: list[tuple[float, bytes]] = []
         box["alive_replies"] = alive_replies
 
-        def on_write(b: bytes) -> None:
-            ptype = struct.unpack("!H", b[2:4])[0] if len(b) >= 8 else -1
+        outbuf = bytearray()
+
+        def on_write(data: bytes) -> None:
+            # the gateway reads a byte stream: frames are taken off it as they become complete, however many write() calls
+            # the client has used for them
+            outbuf.extend(data)
+            while len(outbuf) >= 8 and "out_of_sync" not in box:
+                v, iv, ptype, ln = struct.unpack("!BBHL", bytes(outbuf[:8]))
+                if v ^ iv != 0xFF or ptype not in (0x8001, 0x0008, 0x0005, 0x0007):
+                    box["out_of_sync"] = f"header {bytes(outbuf[:8]).hex()} after {len(client_writes)} diagnostic message(s) and {len(alive_replies)} other frame(s)"
+                    return
+                if len(outbuf) < 8 + ln:
+                    return
+                b = bytes(outbuf[:8 + ln])
+                del outbuf[:8 + ln]
+                frame_out(ptype, b)
+
+        def frame_out(ptype: int, b: bytes) -> None:
             if ptype == 0x8001:
                 k = len(client_writes)
                 req = b[12:]
@@ -221,7 +264,8 @@ def run_case(case: dict[str, Any]) -> dict[str, Any]:
             else:
                 alive_replies.append((loop.time(), b))
 
-        writer = MemWriter(on_write)
+        writer = SlowWriter(on_write)
+        writer.drain_delay = case.get("slow_drain") or 0.0
         for t, fr in case["unsolicited"]:
             wire.emit(t, enc(fr, src, tgt, ver, None), {"frame": fr})
         conn = DoIPConnection(reader, writer, src, tgt, ver)  # type: ignore[arg-type]
@@ -322,6 +366,8 @@ def check(case: dict[str, Any]) -> list[tuple[str, str]]:
     if r["status"] != "ok":
         return [(f"C06/run-{r['status']}", f"program did not finish: {r['status']} {r['val']!r}; ops {[(o.kind, o.outcome) for o in r['ops']]}")]
     src, tgt, ver = case["src"], case["tgt"], case["ver"]
+    if "out_of_sync" in r["box"]:
+        return [("C06/outgoing-stream/not-a-sequence-of-frames", f"the gateway cannot parse what the client sent: {r['box']['out_of_sync']}; {_desc(case)}")]
     wire: Wire = r["box"]["wire"]
     frames = sorted(wire.frames, key=lambda f: f.seq)
     cls = [classify(f.raw, src, tgt) for f in frames]
